@@ -25,7 +25,7 @@ fn splits(r: &mut Rng, width: usize, th: bool) -> Vec<Vec<usize>> {
                 let mut p = vec![mean; m];
                 // middle entries shifted by -d / +d pairwise
                 let d = (mean / 2).max(1).min(64 - mean.min(63));
-                if d > 0 && mean > d { p[1] -= d; p[2] += d; v.push(p.clone()); }
+                if d > 0 && mean > d && mean + d <= 64 { p[1] -= d; p[2] += d; v.push(p.clone()); }
                 if m == 8 && mean > 1 && mean < 64 { let mut q = vec![mean; m]; q[1] = 1; q[2] = 2 * mean - 1; if q[2] <= 64 { extra.push(q); } }
             }
         }
